@@ -178,11 +178,21 @@ func (e *Enc) rnd(x Term) Term {
 	}
 	// sign preservation and zero
 	e.sc.AssertKeyed(key, T(fmt.Sprintf("(and (=> (>= %s 0.0) (>= %s 0.0)) (=> (<= %s 0.0) (<= %s 0.0)))", x.S, r.S, x.S, r.S), SBool))
-	// 2. monotonicity against earlier roundings (opt-in: quadratic)
+	// 2. monotonicity (opt-in: quadratic): against earlier roundings, and against representable values
+	// (0, 1, -1 and the integer-valued operands of this operation): rounding never crosses a float
 	if e.fc != nil && e.fc.FPMonotone {
 		for k, y := range e.rndTerms[:len(e.rndTerms)-1] {
 			ry := e.rndVals[k]
 			e.sc.AssertKeyed(key, T(fmt.Sprintf("(and (=> (<= %s %s) (<= %s %s)) (=> (<= %s %s) (<= %s %s)))", x.S, y.S, r.S, ry.S, y.S, x.S, ry.S, r.S), SBool))
+		}
+		reps := []string{"0.0", "1.0", "(- 1.0)"}
+		reps = append(reps, representableOperands(x.S)...)
+		for _, c := range reps {
+			e.sc.AssertKeyed(key, T(fmt.Sprintf("(and (=> (<= %s %s) (<= %s %s)) (=> (>= %s %s) (>= %s %s)))", x.S, c, r.S, c, x.S, c, r.S, c), SBool))
+			if !strings.HasPrefix(c, "(-") && c != "0.0" && c != "1.0" {
+				neg := "(- " + c + ")"
+				e.sc.AssertKeyed(key, T(fmt.Sprintf("(and (=> (<= %s %s) (<= %s %s)) (=> (>= %s %s) (>= %s %s)))", x.S, neg, r.S, neg, x.S, neg, r.S, neg), SBool))
+			}
 		}
 	}
 	return r
@@ -592,4 +602,21 @@ func nonMutatingExternal(name string) bool {
 		}
 	}
 	return false
+}
+
+// representableOperands: the (to_real k) operands of an arithmetic term — integer-valued floats
+// (exactly representable: their magnitude is covered by FP.exact obligations).
+func representableOperands(x string) []string {
+	var out []string
+	seen := map[string]bool{}
+	for i := 0; i+9 <= len(x); i++ {
+		if x[i:i+9] == "(to_real " {
+			t := readSexp(x[i:])
+			if !seen[t] {
+				seen[t] = true
+				out = append(out, t)
+			}
+		}
+	}
+	return out
 }
